@@ -6,6 +6,8 @@
 //! terminators, '>' at line start opens a record), the generator's own knowledge of raggedness,
 //! and the input records for the write -> read laws.
 
+mod reuse;
+
 use std::{
     collections::HashSet,
     hash::{Hash, Hasher},
@@ -1176,7 +1178,7 @@ fn main() {
              or bgzipped in 7-byte blocks with a harness-built gzi, with/without the EOF-block entry) and inside each case every record x every region \
              start..=end with 1<=start<=end<=len+3 plus start.., ..=end and .. (wide geometries: boundary positions only in the quick tier, all in thorough). \
              distinct = distinct (file bytes, reader configuration) pairs; states = (file, reader, record) triples whose complete region set was checked. \
-             fasta_write_read / fastq_write_read: every record tuple of the listed alphabets x line width {1..5,60,unlimited} x capacity.",
+             fasta_write_read / fastq_write_read: every record tuple of the listed alphabets x line width {1..5,60,unlimited} x capacity. fastq_reuse / fasta_reuse: every ordered pair and triple of a presence-spanning record set (description present/absent, long/short/empty name, sequence, qualities) x capacity {8192,1,3}, each file read with one reused record (clean, pre-dirtied with longer content), a fresh record per read and the iterator.",
         );
         ctx.assume("miniz_oxide deflate + crc32fast (harness BGZF block maker) are correct");
         ctx.assume("std::io::BufReader / Cursor implement BufRead + Seek as documented");
@@ -1321,6 +1323,34 @@ fn main() {
             },
         );
         ctx.add_distinct((fq_sets.len() * seps.len()) as u64, (fq_sets.len() * seps.len()) as u64);
+
+        // ---- G1: state in reused records / buffers ----
+        let caps3 = [8192usize, 1, 3];
+        let fq_t = reuse::tuples(reuse::FQ_SET.len());
+        let nfq = (fq_t.len() * caps3.len()) as u64;
+        ctx.sweep(
+            "fastq_reuse",
+            nfq,
+            |i| format!("records {:?} cap={}", fq_t[i as usize / 3], caps3[i as usize % 3]),
+            |i| {
+                let recs: Vec<FqRec> = fq_t[i as usize / 3].iter().map(|&k| reuse::FQ_SET[k].clone()).collect();
+                reuse::fastq_reuse(&recs, caps3[i as usize % 3])
+            },
+        );
+        ctx.add_distinct(fq_t.len() as u64, fq_t.len() as u64 * 4);
+        let fa_t = reuse::tuples(reuse::FA_SET.len());
+        let fa_w = [3usize, 60];
+        let nfa = (fa_t.len() * fa_w.len() * caps3.len()) as u64;
+        ctx.sweep(
+            "fasta_reuse",
+            nfa,
+            |i| format!("records {:?} width={} cap={}", fa_t[i as usize / 6], fa_w[(i as usize / 3) % 2], caps3[i as usize % 3]),
+            |i| {
+                let recs: Vec<FaRec> = fa_t[i as usize / 6].iter().map(|&k| reuse::FA_SET[k].clone()).collect();
+                reuse::fasta_reuse(&recs, fa_w[(i as usize / 3) % 2], caps3[i as usize % 3])
+            },
+        );
+        ctx.add_distinct((fa_t.len() * 2) as u64, (fa_t.len() * 8) as u64);
 
         ctx.extra(
             "c11_counters",
